@@ -1102,4 +1102,43 @@ mod tests {
 #[allow(missing_docs, unused_imports, dead_code, clippy::all, clippy::pedantic, clippy::nursery)]
 pub mod verif_hooks {
     use super::*;
+
+    pub use super::PackSizer;
+
+    /// `BasicPacker` (crate-private) behind a public newtype; every method forwards.
+    #[derive(Debug)]
+    pub struct BasicPackerHook(BasicPacker);
+
+    impl BasicPackerHook {
+        pub fn new(blob_type: BlobType, pack_sizer: PackSizer) -> Self {
+            Self(BasicPacker::new(blob_type, pack_sizer))
+        }
+        pub fn is_empty(&self) -> bool {
+            self.0.is_empty()
+        }
+        pub fn add_raw(
+            &mut self,
+            data: Bytes,
+            id: &BlobId,
+            data_len: u64,
+            uncompressed_length: Option<NonZeroU32>,
+        ) -> RusticResult<()> {
+            self.0.add_raw(data, id, data_len, uncompressed_length)
+        }
+        pub fn should_save(&self) -> bool {
+            self.0.should_save()
+        }
+        pub fn header_bytes(&self) -> RusticResult<Bytes> {
+            self.0.header_bytes()
+        }
+        pub fn write_header(&mut self, header: Bytes) -> RusticResult<()> {
+            self.0.write_header(header)
+        }
+        pub fn take_data(&mut self) -> (BytesList, IndexPack) {
+            self.0.take_data()
+        }
+        pub fn has(&self, id: &BlobId) -> bool {
+            self.0.has(id)
+        }
+    }
 }
